@@ -7,8 +7,9 @@ import TxV.Lemmas.CtlWaiters
 Same model as C01 (`TxV.Ctl`) after the repair of `connectionLost` / `_maybe_issue_command`.
 All statements are about **every** input sequence: any bytes (hence a loss at any byte offset of
 any session, mid-line, mid-reply, mid-data-block), any number of commands before and after, any
-listener activity.  The model's `lost` input carries no close reason: `connectionLost` treats clean
-and unclean closes alike as far as commands and `when_disconnected` are concerned.
+listener activity.  The close reason (clean / unclean) is an input of its own (`reason`, read by the next
+`lost`): `connectionLost` treats the two alike as far as commands and `when_disconnected` are concerned;
+only the deprecated `on_disconnect` Deferred looks at it (`C03_legacy_once`).
 -/
 namespace TxV.Props.C03
 open TxV.Ctl TxV.CtlSpec TxV.CtlLemmas
@@ -33,8 +34,9 @@ theorem C03_loss_fails_pending (q : Q) :
     resIds (lose q).2 = (pend q).map (·.id) ∧ (lose q).1.command = none ∧ (lose q).1.commands = [] ∧
     (lose q).1.lost = true := by
   have hn := notified_proj q.waiters
+  have hl := legacy_proj q.legacy q.clean
   have hd := discErrs_proj (q.command.toList ++ q.commands)
-  simp only [lose, pend, resIds_append, hn.2.2.2, hd.2.2.2, List.nil_append, and_self]
+  simp only [lose, pend, resIds_append, hn.2.2.2, hl.2.2.2, hd.2.2.2, List.nil_append, and_self]
 
 /-- a command submitted after the loss fails at once, and nothing is written -/
 theorem C03_submit_after_loss (q : Q) (c : Cmd) (hl : q.lost = true) (hc : q.command = none)
@@ -62,6 +64,69 @@ theorem C03_notified_once (act : Nat → Act) (is : List In) :
   have := h.acct
   rw [h.none_waiting hl] at this
   simpa using this
+
+/-! ### the deprecated `on_disconnect` attribute (still a "request to be told about disconnection") -/
+
+def legacyOf : Out → Option (Nat × Bool)
+  | .legacy r b => some (r, b)
+  | _ => none
+/-- callbacks chained on `on_disconnect` that ran, with what they were given (`true`: the protocol, `false`: a Failure) -/
+def legacies (h : List Out) : List (Nat × Bool) := h.filterMap legacyOf
+/-- `on_disconnect` requests among the inputs, in order -/
+def legacyReqs : List In → List Nat
+  | [] => []
+  | .onDisc rid :: rest => rid :: legacyReqs rest
+  | _ :: rest => legacyReqs rest
+
+/-- what the loss itself does for `on_disconnect`: every chained callback runs exactly once, in the order of chaining, with
+the protocol when the close was clean and with a Failure otherwise; the list is emptied; the requests made through
+`when_disconnected()` are notified as well, and every outstanding command fails — whatever the reason is. -/
+theorem C03_legacy_at_loss (q : Q) :
+    legacies (lose q).2 = q.legacy.map (fun r => (r, q.clean)) ∧ (lose q).1.legacy = [] ∧
+    notifs (lose q).2 = q.waiters ∧ resIds (lose q).2 = (pend q).map (·.id) := by
+  have h1 : legacies (q.waiters.map Out.notified) = [] := by
+    induction q.waiters with
+    | nil => rfl
+    | cons a r ih => simpa [legacies, legacyOf] using ih
+  have h2 : legacies (q.legacy.map fun r => Out.legacy r q.clean) = q.legacy.map (fun r => (r, q.clean)) := by
+    induction q.legacy with
+    | nil => rfl
+    | cons a r ih => simpa [legacies, legacyOf] using ih
+  have h3 : ∀ l : List Cmd, legacies (l.map fun c => Out.discErr c.id) = [] := by
+    intro l
+    induction l with
+    | nil => rfl
+    | cons a r ih => simpa [legacies, legacyOf] using ih
+  have hn : notifs (q.waiters.map Out.notified) = q.waiters := by
+    induction q.waiters with
+    | nil => rfl
+    | cons a r ih => simp [ih]
+  have hl : notifs (q.legacy.map fun r => Out.legacy r q.clean) = [] := by
+    induction q.legacy with
+    | nil => rfl
+    | cons a r ih => simp [ih, notifOf]
+  have hd := discErrs_quiet (q.command.toList ++ q.commands)
+  refine ⟨?_, rfl, ?_, (C03_loss_fails_pending q).1⟩
+  · simp only [lose, legacies, List.filterMap_append] at h1 h2 h3 ⊢
+    rw [h1, h2, h3]; simp
+  · simp only [lose, notifs_append, hn, hl, hd.2, List.append_nil]
+
+/-- the close reason changes nothing else: two states that differ in `clean` only produce, at the loss, the same
+command failures and the same `when_disconnected` notifications, and end in the same state. -/
+theorem C03_reason_irrelevant (q : Q) (b : Bool) :
+    resIds (lose { q with clean := b }).2 = resIds (lose q).2 ∧ notifs (lose { q with clean := b }).2 = notifs (lose q).2 ∧
+    writes (lose { q with clean := b }).2 = [] ∧ (lose { q with clean := b }).1 = { (lose q).1 with clean := b } := by
+  have a := C03_legacy_at_loss q
+  have a' := C03_legacy_at_loss { q with clean := b }
+  refine ⟨by rw [a'.2.2.2, a.2.2.2]; rfl, by rw [a'.2.2.1, a.2.2.1], ?_, rfl⟩
+  have hn := notified_proj q.waiters
+  have hl := legacy_proj q.legacy b
+  have hd := discErrs_proj (q.command.toList ++ q.commands)
+  simp only [lose, writes_append, hn.2.1, hl.2.1, hd.2.1, List.append_nil]
+
+/-- after the loss the attribute is gone (`None`): a late caller is told so and nothing is chained -/
+theorem C03_legacy_after_loss (q : Q) (rid : Nat) (hl : q.lost = true) : onDisc q rid = (q, [Out.legacyGone rid]) := by
+  simp [onDisc, hl]
 
 /-- the same run cut anywhere: a loss after any prefix of any byte stream (split at any offset)
 is just another input sequence, so the theorems above apply to it -/
